@@ -1,13 +1,614 @@
-//! Thrift runtime, second part: spec conformance (C03), skip (C07), totality (C09), unchecked codec (C11), async (C12).
+//! Track thrift2: skip (C07) and totality of the safe in-memory readers and the skippers (C09).
+//!
+//! Verbs
+//!   skv <proto> <depth|-> <val> <val2|-> <trailing-hex>   encode val (+val2, +trailing), skip val, read val2
+//!   sk  <proto> <hex> <step>…                               script of (read tt) / (skip tt) / (skipd tt d) over raw bytes
+//!   pfx <proto> <val>                                       every strict prefix of the encoding is rejected (read and skip)
+//! protos: bin le cmp (in-memory), ubin (unchecked reader, iterative skipper, `skip_till_depth`),
+//!         ubinf (unchecked reader, `skip` after `read_field_begin`), abin acmp (async readers).
+use std::alloc::{GlobalAlloc, Layout, System};
+use std::future::Future;
 use std::io::Write;
+use std::pin::Pin;
+use std::sync::atomic::{AtomicUsize, Ordering::Relaxed};
+use std::sync::Arc;
+use std::task::{Context, Poll, Waker};
 
+use bytes::Bytes;
+use pilota::thrift::{
+    binary_unsafe::TBinaryUnsafeInputProtocol, TAsyncBinaryProtocol, TAsyncCompactProtocol, TAsyncInputProtocol,
+    TInputProtocol, ThriftException,
+};
+
+use crate::gen;
+use crate::thrift::{err_class, read_script, read_val, write_all, BufK, Proto, ReadStep, StrApi};
 use crate::val::*;
 use crate::Oracle;
 
-pub fn exec(_verb: &str, _items: &[Sexp], _o: &mut Oracle) -> Option<String> {
+// ------------------------------------------------------------------------------------------------
+// counting allocator: live bytes, peak, largest single request (C09 allocation oracle)
+
+pub struct CountingAlloc;
+static LIVE: AtomicUsize = AtomicUsize::new(0);
+static PEAK: AtomicUsize = AtomicUsize::new(0);
+static BIGGEST: AtomicUsize = AtomicUsize::new(0);
+
+unsafe impl GlobalAlloc for CountingAlloc {
+    unsafe fn alloc(&self, l: Layout) -> *mut u8 {
+        BIGGEST.fetch_max(l.size(), Relaxed);
+        let p = System.alloc(l);
+        if !p.is_null() { let n = LIVE.fetch_add(l.size(), Relaxed) + l.size(); PEAK.fetch_max(n, Relaxed); }
+        p
+    }
+    unsafe fn dealloc(&self, p: *mut u8, l: Layout) { LIVE.fetch_sub(l.size(), Relaxed); System.dealloc(p, l) }
+    unsafe fn alloc_zeroed(&self, l: Layout) -> *mut u8 {
+        BIGGEST.fetch_max(l.size(), Relaxed);
+        let p = System.alloc_zeroed(l);
+        if !p.is_null() { let n = LIVE.fetch_add(l.size(), Relaxed) + l.size(); PEAK.fetch_max(n, Relaxed); }
+        p
+    }
+    unsafe fn realloc(&self, p: *mut u8, l: Layout, new: usize) -> *mut u8 {
+        BIGGEST.fetch_max(new, Relaxed);
+        let q = System.realloc(p, l, new);
+        if !q.is_null() {
+            if new >= l.size() { let n = LIVE.fetch_add(new - l.size(), Relaxed) + (new - l.size()); PEAK.fetch_max(n, Relaxed); }
+            else { LIVE.fetch_sub(l.size() - new, Relaxed); }
+        }
+        q
+    }
+}
+
+// Registered as the global allocator by the `rt` BINARY (main.rs), not by this library: other binaries that link
+// the library (genrun) install their own; there the counters stay at zero and the allocation oracle is silent.
+
+/// run `f`; returns its result, the peak of live bytes above the level at entry, the largest single request.
+fn measured<T>(f: impl FnOnce() -> T) -> (T, usize, usize) {
+    let start = LIVE.load(Relaxed);
+    PEAK.store(start, Relaxed);
+    BIGGEST.store(0, Relaxed);
+    let r = f();
+    (r, PEAK.load(Relaxed).saturating_sub(start), BIGGEST.load(Relaxed))
+}
+
+// ------------------------------------------------------------------------------------------------
+// a hand-rolled executor and an AsyncRead over a byte vector whose position can be observed
+
+fn block_on<F: Future>(f: F) -> Option<F::Output> {
+    let mut f = Box::pin(f);
+    let mut cx = Context::from_waker(Waker::noop());
+    for _ in 0..4096 { if let Poll::Ready(x) = f.as_mut().poll(&mut cx) { return Some(x); } }
     None
 }
 
-pub fn gen(_stream: &str, _tier: &str, _seed: u64, _out: &mut dyn Write) -> bool {
-    false
+struct SliceRead { data: Vec<u8>, pos: Arc<AtomicUsize>, chunk: usize }
+impl tokio::io::AsyncRead for SliceRead {
+    fn poll_read(self: Pin<&mut Self>, _cx: &mut Context<'_>, buf: &mut tokio::io::ReadBuf<'_>) -> Poll<std::io::Result<()>> {
+        let me = self.get_mut();
+        let p = me.pos.load(Relaxed);
+        let n = buf.remaining().min(me.data.len() - p).min(me.chunk);
+        buf.put_slice(&me.data[p..p + n]);
+        me.pos.store(p + n, Relaxed);
+        Poll::Ready(Ok(()))
+    }
+}
+
+/// the dynamic reading interpreter over the async reader traits.
+fn aread_val<'a, P: TAsyncInputProtocol>(p: &'a mut P, tt: TT) -> Pin<Box<dyn Future<Output = Result<Val, ThriftException>> + Send + 'a>> {
+    Box::pin(async move {
+        Ok(match tt {
+            TT::Bool => Val::Bool(p.read_bool().await?),
+            TT::I8 => Val::I8(p.read_i8().await?),
+            TT::I16 => Val::I16(p.read_i16().await?),
+            TT::I32 => Val::I32(p.read_i32().await?),
+            TT::I64 => Val::I64(p.read_i64().await?),
+            TT::Double => Val::Dbl(p.read_double().await?.to_bits()),
+            TT::Binary => Val::Bin(p.read_bytes_vec().await?),
+            TT::Uuid => Val::Uuid(p.read_uuid().await?),
+            TT::Struct => {
+                p.read_struct_begin().await?;
+                let mut fs = vec![];
+                loop {
+                    let f = p.read_field_begin().await?;
+                    if f.field_type == pilota::thrift::TType::Stop { break; }
+                    let v = aread_val(p, TT::of_p(f.field_type)).await?;
+                    p.read_field_end().await?;
+                    fs.push((f.id.unwrap_or(0), v));
+                }
+                p.read_struct_end().await?;
+                Val::Struct(fs)
+            }
+            TT::List | TT::Set => {
+                let (et, n) = if tt == TT::List { let l = p.read_list_begin().await?; (l.element_type, l.size) } else { let l = p.read_set_begin().await?; (l.element_type, l.size) };
+                let et = TT::of_p(et);
+                let mut xs = vec![];
+                for _ in 0..n { xs.push(aread_val(p, et).await?); }
+                if tt == TT::List { p.read_list_end().await?; Val::List(et, xs) } else { p.read_set_end().await?; Val::Set(et, xs) }
+            }
+            TT::Map => {
+                let m = p.read_map_begin().await?;
+                let (kt, vt) = (TT::of_p(m.key_type), TT::of_p(m.value_type));
+                let mut kvs = vec![];
+                for _ in 0..m.size { let k = aread_val(p, kt).await?; let v = aread_val(p, vt).await?; kvs.push((k, v)); }
+                p.read_map_end().await?;
+                Val::Map(kt, vt, kvs)
+            }
+            TT::Stop | TT::Void => return Err(pilota::thrift::new_protocol_exception(pilota::thrift::ProtocolExceptionKind::InvalidData, "cannot read stop/void")),
+        })
+    })
+}
+
+// ------------------------------------------------------------------------------------------------
+
+#[derive(Clone, Copy, PartialEq, Debug)]
+pub enum SP { Bin, Le, Cmp, UBin, UBinF, ABin, ACmp }
+impl SP {
+    pub const ALL: [SP; 7] = [SP::Bin, SP::Le, SP::Cmp, SP::UBin, SP::UBinF, SP::ABin, SP::ACmp];
+    pub const SAFE: [SP; 5] = [SP::Bin, SP::Le, SP::Cmp, SP::ABin, SP::ACmp];
+    pub fn of(s: &str) -> Option<SP> { SP::ALL.iter().copied().find(|p| p.name() == s) }
+    pub fn name(self) -> &'static str { match self { SP::Bin => "bin", SP::Le => "le", SP::Cmp => "cmp", SP::UBin => "ubin", SP::UBinF => "ubinf", SP::ABin => "abin", SP::ACmp => "acmp" } }
+    /// the writer whose bytes this reader reads
+    pub fn family(self) -> Proto { match self { SP::Le => Proto::Le, SP::Cmp | SP::ACmp => Proto::Cmp, _ => Proto::Bin } }
+    pub fn compact(self) -> bool { matches!(self, SP::Cmp | SP::ACmp) }
+    pub fn recursive(self) -> bool { !matches!(self, SP::UBin | SP::UBinF) }
+}
+
+pub fn enc_for(p: SP, v: &Val) -> Vec<u8> {
+    write_all(p.family(), BufK::Bm, StrApi::Bytes, std::slice::from_ref(v)).expect("writer").bytes
+}
+
+pub struct ScriptOut { pub items: Vec<String>, pub rem: usize, pub err: Option<&'static str>, pub hung: bool }
+
+fn run_async<P: TAsyncInputProtocol>(p: &mut P, pos: &AtomicUsize, script: &[ReadStep], items: &mut Vec<String>, err: &mut Option<&'static str>) -> bool {
+    let fut = async {
+        for st in script {
+            let before = pos.load(Relaxed);
+            let r = match st {
+                ReadStep::Read(tt) => aread_val(p, *tt).await.map(|v| v.sexp()),
+                ReadStep::Skip(tt) => p.skip(tt.to_p()).await.map(|_| (pos.load(Relaxed) - before).to_string()),
+                ReadStep::SkipDepth(tt, d) => p.skip_till_depth(tt.to_p(), *d).await.map(|_| (pos.load(Relaxed) - before).to_string()),
+            };
+            match r { Ok(s) => items.push(s), Err(e) => { *err = Some(err_class(&e)); return; } }
+        }
+    };
+    block_on(fut).is_some()
+}
+
+/// run a script on ONE reader instance of kind `p` over `input`.
+pub fn run_script(p: SP, input: &[u8], script: &[ReadStep]) -> ScriptOut {
+    match p {
+        SP::Bin | SP::Le | SP::Cmp => {
+            let r = read_script(p.family(), input, script);
+            ScriptOut { items: r.items, rem: r.rem, err: r.err, hung: false }
+        }
+        SP::UBin => {
+            // the unchecked reader's `skip` presupposes a field header just read; scripts call the loop directly
+            let script: Vec<ReadStep> = script.iter().map(|s| match s { ReadStep::Skip(t) => ReadStep::SkipDepth(*t, 64), ReadStep::Read(t) => ReadStep::Read(*t), ReadStep::SkipDepth(t, d) => ReadStep::SkipDepth(*t, *d) }).collect();
+            let r = read_script(Proto::UBin, input, &script);
+            ScriptOut { items: r.items, rem: r.rem, err: r.err, hung: false }
+        }
+        SP::UBinF => {
+            // every skip step is preceded by a synthetic field header, read with read_field_begin, then `skip`
+            let mut data = Vec::with_capacity(input.len() + 3 * script.len());
+            let mut first = true;
+            for st in script {
+                if let (ReadStep::Skip(t) | ReadStep::SkipDepth(t, _), true) = (st, first) { data.push(t.to_p() as u8); data.extend_from_slice(&[0, 1]); first = false; }
+            }
+            data.extend_from_slice(input);
+            let mut b = Bytes::from(data);
+            let mut items = vec![];
+            let mut err = None;
+            let mut p = unsafe { TBinaryUnsafeInputProtocol::new(&mut b) };
+            let mut first = true;
+            for st in script {
+                let r = match st {
+                    ReadStep::Read(tt) => read_val(&mut p, *tt).map(|v| v.sexp()),
+                    ReadStep::Skip(_) | ReadStep::SkipDepth(_, _) if first => { first = false; p.read_field_begin().and_then(|f| p.skip(f.field_type)).map(|n| n.to_string()) }
+                    ReadStep::Skip(tt) | ReadStep::SkipDepth(tt, _) => p.skip_till_depth(tt.to_p(), 64).map(|n| n.to_string()),
+                };
+                match r { Ok(s) => items.push(s), Err(e) => { err = Some(err_class(&e)); break; } }
+            }
+            let idx = p.index();
+            drop(p);
+            ScriptOut { items, rem: b.len().wrapping_sub(idx), err, hung: false }
+        }
+        SP::ABin | SP::ACmp => {
+            let pos = Arc::new(AtomicUsize::new(0));
+            let rd = SliceRead { data: input.to_vec(), pos: pos.clone(), chunk: usize::MAX };
+            let mut items = vec![];
+            let mut err = None;
+            let done = if p == SP::ABin { let mut pr = TAsyncBinaryProtocol::new(rd); run_async(&mut pr, &pos, script, &mut items, &mut err) }
+                       else { let mut pr = TAsyncCompactProtocol::new(rd); run_async(&mut pr, &pos, script, &mut items, &mut err) };
+            ScriptOut { items, rem: input.len() - pos.load(Relaxed), err, hung: !done }
+        }
+    }
+}
+
+fn steps_of(xs: &[Sexp]) -> Option<Vec<ReadStep>> {
+    xs.iter().map(|x| {
+        let l = x.list()?;
+        let tt = TT::of_name(l.get(1)?.atom()?)?;
+        Some(match l.first()?.atom()? {
+            "read" => ReadStep::Read(tt),
+            "skip" => ReadStep::Skip(tt),
+            "skipd" => ReadStep::SkipDepth(tt, l.get(2)?.atom()?.parse().ok()?),
+            _ => return None,
+        })
+    }).collect()
+}
+
+/// field-by-field decode of a struct, skipping field number `k`: (reported count, bytes the reader moved, struct of the other fields, remaining)
+fn skip_field(p: SP, input: &[u8], k: usize) -> Result<(Option<usize>, Option<usize>, String, usize), &'static str> {
+    fn sync<P: TInputProtocol>(pr: &mut P, k: usize, pos: &dyn Fn(&mut P) -> usize) -> Result<(Option<usize>, Option<usize>, String), ThriftException> {
+        pr.read_struct_begin()?;
+        let (mut fs, mut count, mut moved, mut i) = (vec![], None, None, 0usize);
+        loop {
+            let f = pr.read_field_begin()?;
+            if f.field_type == pilota::thrift::TType::Stop { break; }
+            if i == k { let before = pos(pr); count = Some(pr.skip(f.field_type)?); moved = Some(before - pos(pr)); }
+            else { fs.push((f.id.unwrap_or(0), read_val(pr, TT::of_p(f.field_type))?)); }
+            pr.read_field_end()?;
+            i += 1;
+        }
+        pr.read_struct_end()?;
+        Ok((count, moved, Val::Struct(fs).sexp()))
+    }
+    async fn asyn<P: TAsyncInputProtocol>(pr: &mut P, k: usize, pos: &AtomicUsize) -> Result<(Option<usize>, Option<usize>, String), ThriftException> {
+        pr.read_struct_begin().await?;
+        let (mut fs, mut count, mut i) = (vec![], None, 0usize);
+        loop {
+            let f = pr.read_field_begin().await?;
+            if f.field_type == pilota::thrift::TType::Stop { break; }
+            if i == k { let before = pos.load(Relaxed); pr.skip(f.field_type).await?; count = Some(pos.load(Relaxed) - before); }
+            else { fs.push((f.id.unwrap_or(0), aread_val(pr, TT::of_p(f.field_type)).await?)); }
+            pr.read_field_end().await?;
+            i += 1;
+        }
+        pr.read_struct_end().await?;
+        Ok((count, count, Val::Struct(fs).sexp()))
+    }
+    let mut b = Bytes::copy_from_slice(input);
+    let r = match p {
+        SP::Bin => { let mut pr = pilota::thrift::binary::TBinaryProtocol::new(&mut b, false); let r = sync(&mut pr, k, &|q| q.buf().len()); drop(pr); r.map(|x| (x, b.len())) }
+        SP::Le => { let mut pr = pilota::thrift::binary_le::TBinaryProtocol::new(&mut b, false); let r = sync(&mut pr, k, &|q| q.buf().len()); drop(pr); r.map(|x| (x, b.len())) }
+        SP::Cmp => { let mut pr = pilota::thrift::compact::TCompactInputProtocol::new(&mut b); let r = sync(&mut pr, k, &|q| q.buf().len()); drop(pr); r.map(|x| (x, b.len())) }
+        SP::UBin | SP::UBinF => {
+            let mut pr = unsafe { TBinaryUnsafeInputProtocol::new(&mut b) };
+            let r = sync(&mut pr, k, &|q| { let i = q.index(); q.buf().len() - i });
+            let idx = pr.index(); drop(pr);
+            r.map(|x| (x, b.len().wrapping_sub(idx)))
+        }
+        SP::ABin | SP::ACmp => {
+            let pos = Arc::new(AtomicUsize::new(0));
+            let rd = SliceRead { data: input.to_vec(), pos: pos.clone(), chunk: usize::MAX };
+            let r = if p == SP::ABin { let mut pr = TAsyncBinaryProtocol::new(rd); block_on(asyn(&mut pr, k, &pos)) } else { let mut pr = TAsyncCompactProtocol::new(rd); block_on(asyn(&mut pr, k, &pos)) };
+            match r { Some(r) => r.map(|x| (x, input.len() - pos.load(Relaxed))), None => return Err("hung") }
+        }
+    };
+    match r { Ok(((c, m, s), rem)) => Ok((c, m, s, rem)), Err(e) => Err(err_class(&e)) }
+}
+
+/// allocation bound of the C09 oracle: live bytes above the level at entry
+fn alloc_bound(input_len: usize) -> usize { 512 * input_len + (256 << 10) }
+
+pub fn exec(verb: &str, items: &[Sexp], o: &mut Oracle) -> Option<String> {
+    let a = |i: usize| items.get(i).and_then(|x| x.atom());
+    Some(match verb {
+        "skv" => {
+            let (Some(p), Some(d), Some(v), Some(tr)) = (a(1).and_then(SP::of), a(2), items.get(3).and_then(Val::of_sexp), a(5).and_then(unhex)) else { return Some("bad-request".into()) };
+            let d: Option<i8> = if d == "-" { None } else { match d.parse() { Ok(x) => Some(x), Err(_) => return Some("bad-request".into()) } };
+            let v2 = match items.get(4) { Some(Sexp::Atom(s)) if s == "-" => None, Some(x) => match Val::of_sexp(x) { Some(v) => Some(v), None => return Some("bad-request".into()) }, None => return Some("bad-request".into()) };
+            let e1 = enc_for(p, &v);
+            let mut input = e1.clone();
+            if let Some(w) = &v2 { input.extend(enc_for(p, w)); }
+            input.extend(&tr);
+            let mut script = vec![match d { None => ReadStep::Skip(v.tt()), Some(d) => ReadStep::SkipDepth(v.tt(), d) }];
+            if let Some(w) = &v2 { script.push(ReadStep::Read(w.tt())); }
+            let t0 = std::time::Instant::now();
+            let r = run_script(p, &input, &script);
+            if t0.elapsed().as_secs() >= 5 { o.fail("C07,C09", format!("skip took {:?}", t0.elapsed())); }
+            if r.hung { o.fail("C07,C09", "async skip stayed pending on a fully delivered stream".into()); }
+            // ---- oracle (C07)
+            let need = v.depth() as i32;
+            let budget = d.map(|x| x as i32).unwrap_or(64);
+            let expect_ok = !p.recursive() || (budget >= need) || (budget < 0 && need <= 100);
+            if expect_ok {
+                match r.err {
+                    Some(c) if r.items.is_empty() => o.fail("C07", format!("skip of a well-formed value (nesting {}, budget {}) failed: {}", need, budget, c)),
+                    Some(c) => o.fail("C07", format!("value after the skipped one failed to read: {}", c)),
+                    None => {
+                        if r.items[0] != e1.len().to_string() { o.fail("C07", format!("skip reported {} but the value is {} bytes", r.items[0], e1.len())); }
+                        if r.rem != tr.len() { o.fail("C07", format!("{} bytes left, trailing data is {} bytes", r.rem, tr.len())); }
+                        if let Some(w) = &v2 {
+                            let want = if p.compact() { w.norm_compact().sexp() } else { w.sexp() };
+                            if r.items[1] != want { o.fail("C07", format!("value after the skipped one read as {} expected {}", r.items[1], want)); }
+                        }
+                    }
+                }
+            } else if !(r.err == Some("depth") && r.items.is_empty()) {
+                o.fail("C07", format!("nesting {} with budget {} not refused with a depth-limit error: {:?} {:?}", need, budget, r.err, r.items));
+            }
+            match (r.err, r.items.len()) {
+                (None, 1) => format!("ok {} - rem={} len={}", r.items[0], r.rem, e1.len()),
+                (None, _) => format!("ok {} {} rem={} len={}", r.items[0], r.items[1], r.rem, e1.len()),
+                (Some(c), 0) => c.to_string(),
+                (Some(c), _) => format!("{} after-skip {}", c, r.items[0]),
+            }
+        }
+        "skf" => {
+            // decode a struct field by field on one reader instance, skipping field number k (0-based) and reading the others
+            let (Some(p), Some(v), Some(k)) = (a(1).and_then(SP::of), items.get(2).and_then(Val::of_sexp), a(3).and_then(|x| x.parse::<usize>().ok())) else { return Some("bad-request".into()) };
+            let Val::Struct(fields) = &v else { return Some("bad-request".into()) };
+            let e = enc_for(p, &v);
+            let r = skip_field(p, &e, k);
+            // ---- oracle (C07): the other fields come out as written (ids included), nothing is left, count = bytes moved
+            let mut want: Vec<(i16, Val)> = fields.clone();
+            if k < want.len() { want.remove(k); }
+            let want = Val::Struct(want);
+            let want = if p.compact() { want.norm_compact().sexp() } else { want.sexp() };
+            match &r {
+                Ok((count, moved, got, rem)) => {
+                    if *got != want { o.fail("C07", format!("after skipping field {} the struct read as {} expected {}", k, got, want)); }
+                    if *rem != 0 { o.fail("C07", format!("{} bytes left after the struct", rem)); }
+                    if let (Some(c), Some(m)) = (count, moved) { if c != m { o.fail("C07", format!("skip reported {} but the reader moved {} bytes", c, m)); } }
+                    if k < fields.len() && count.is_none() { o.fail("C07", "field was not skipped".into()); }
+                }
+                Err(c) => o.fail("C07", format!("decoding a well-formed struct while skipping field {} failed: {}", k, c)),
+            }
+            match r {
+                Ok((count, _, got, rem)) => format!("ok {} {} rem={}", count.map(|c| c.to_string()).unwrap_or("-".into()), got, rem),
+                Err(c) => c.to_string(),
+            }
+        }
+        "sk" => {
+            let (Some(p), Some(input)) = (a(1).and_then(SP::of), a(2).and_then(unhex)) else { return Some("bad-request".into()) };
+            let Some(script) = steps_of(&items[3..]) else { return Some("bad-request".into()) };
+            let t0 = std::time::Instant::now();
+            let (r, peak, biggest) = measured(|| run_script(p, &input, &script));
+            if t0.elapsed().as_secs() >= 5 { o.fail("C09", format!("took {:?} on {} input bytes", t0.elapsed(), input.len())); }
+            if r.hung { o.fail("C09", "async reader stayed pending on a fully delivered stream".into()); }
+            if peak > alloc_bound(input.len()) { o.fail("C09", format!("peak allocation {} bytes (largest request {}) on {} input bytes", peak, biggest, input.len())); }
+            match r.err { Some(c) => format!("{} after={}", c, r.items.len()), None => format!("ok {} rem={}", r.items.join(" "), r.rem) }
+        }
+        "pfx" => {
+            let (Some(p), Some(v)) = (a(1).and_then(SP::of), items.get(2).and_then(Val::of_sexp)) else { return Some("bad-request".into()) };
+            if !p.recursive() { return Some("bad-request".into()) }
+            let e = enc_for(p, &v);
+            let (mut rd, mut sk) = (0usize, 0usize);
+            for k in 0..e.len() {
+                let (r, peak, _) = measured(|| run_script(p, &e[..k], &[ReadStep::Read(v.tt())]));
+                if r.err.is_some() { rd += 1; } else { o.fail("C09", format!("strict prefix of {} of {} bytes accepted by read: {}", k, e.len(), r.items.join(" "))); }
+                if peak > alloc_bound(k) { o.fail("C09", format!("peak allocation {} bytes on a {}-byte prefix", peak, k)); }
+                let r = run_script(p, &e[..k], &[ReadStep::Skip(v.tt())]);
+                if r.err.is_some() { sk += 1; } else { o.fail("C09,C07", format!("strict prefix of {} of {} bytes accepted by skip", k, e.len())); }
+            }
+            format!("ok len={} read_rejected={} skip_rejected={}", e.len(), rd, sk)
+        }
+        _ => return None,
+    })
+}
+
+// ------------------------------------------------------------------------------------------------
+// generators
+
+/// the kinds of `TOutputProtocol` calls `thrift::write_val` makes for a value, in the order of its `mark` calls.
+#[derive(Clone, Copy, PartialEq, Debug)]
+enum OpK { Leaf, Bytes, StructBegin, FieldBegin, FieldEnd, FieldStop, StructEnd, CollBegin, MapBegin, CollEnd }
+
+fn op_kinds(v: &Val, out: &mut Vec<OpK>) {
+    match v {
+        Val::Bin(_) => out.push(OpK::Bytes),
+        Val::Struct(fs) => {
+            out.push(OpK::StructBegin);
+            for (_, f) in fs { out.push(OpK::FieldBegin); op_kinds(f, out); out.push(OpK::FieldEnd); }
+            out.push(OpK::FieldStop); out.push(OpK::StructEnd);
+        }
+        Val::List(_, xs) | Val::Set(_, xs) => { out.push(OpK::CollBegin); for x in xs { op_kinds(x, out); } out.push(OpK::CollEnd); }
+        Val::Map(_, _, kvs) => { out.push(OpK::MapBegin); for (k, x) in kvs { op_kinds(k, out); op_kinds(x, out); } out.push(OpK::CollEnd); }
+        _ => out.push(OpK::Leaf),
+    }
+}
+
+fn varint(mut n: u64) -> Vec<u8> { let mut o = vec![]; loop { if n < 128 { o.push(n as u8); return o; } o.push((n as u8 & 0x7f) | 0x80); n >>= 7; } }
+
+/// adversarial variants of one valid encoding: (a) overwrite every type byte position, (b) every
+/// length / count / field-id position with boundary integers.  Positions come from the per-call byte
+/// counts of the real writer (`Written::per_op`).
+fn header_mutations(p: SP, v: &Val, all_types: bool, out: &mut Vec<Vec<u8>>) {
+    let w = write_all(p.family(), BufK::Bm, StrApi::Bytes, std::slice::from_ref(v)).expect("writer");
+    let mut kinds = vec![];
+    op_kinds(v, &mut kinds);
+    if kinds.len() != w.per_op.len() { return; }
+    let e = &w.bytes;
+    let type_bytes: Vec<u8> = if all_types { (0..=255u8).collect() } else { vec![0, 1, 2, 3, 4, 5, 8, 11, 12, 13, 14, 15, 16, 17, 0x1c, 0x19, 0x7f, 0x80, 0x83, 0xf0, 0xf1, 0xf3, 0xfc, 0xff] };
+    let mut off = 0usize;
+    for (k, n) in kinds.iter().zip(w.per_op.iter()) {
+        let (k, n) = (*k, *n);
+        let rem_after = |pos: usize| (e.len() - pos) as i64;
+        let ints = |rem: i64| -> Vec<i64> { vec![-1, 0, 1, rem - 1, rem, rem + 1, i32::MAX as i64, u32::MAX as i64, i32::MIN as i64] };
+        let id_ints: Vec<i64> = vec![-1, 0, 1, 15, 16, 32753, 32766, 32767, -32768];
+        let put_int = |out: &mut Vec<Vec<u8>>, pos: usize, width: usize| {
+            // fixed-width position (binary protocols)
+            for x in if width == 2 { id_ints.clone() } else { ints(rem_after(pos + width)) } {
+                let mut m = e.clone();
+                let b: Vec<u8> = if width == 4 { if p == SP::Le { (x as i32).to_le_bytes().to_vec() } else { (x as i32).to_be_bytes().to_vec() } }
+                                 else if p == SP::Le { (x as i16).to_le_bytes().to_vec() } else { (x as i16).to_be_bytes().to_vec() };
+                m[pos..pos + width].copy_from_slice(&b);
+                out.push(m);
+            }
+        };
+        let put_var = |out: &mut Vec<Vec<u8>>, pos: usize, len: usize, zigzag: bool| {
+            // varint position (compact): splice a new varint in
+            for x in if zigzag { id_ints.clone() } else { ints(rem_after(pos + len)) } {
+                let raw: u64 = if zigzag { (((x as i64) << 1) ^ ((x as i64) >> 63)) as u64 } else { x as u32 as u64 };
+                let mut m = e[..pos].to_vec(); m.extend(varint(raw)); m.extend(&e[pos + len..]); out.push(m);
+                if x == -1 { let mut m = e[..pos].to_vec(); m.extend([0xff; 10]); m.push(1); m.extend(&e[pos + len..]); out.push(m); }   // over-long varint
+            }
+        };
+        let put_type = |out: &mut Vec<Vec<u8>>, pos: usize| { for t in &type_bytes { if e[pos] != *t { let mut m = e.clone(); m[pos] = *t; out.push(m); } } };
+        if n > 0 {
+            if !p.compact() {
+                match k {
+                    OpK::FieldBegin => { put_type(out, off); put_int(out, off + 1, 2); }
+                    OpK::FieldStop => put_type(out, off),
+                    OpK::CollBegin => { put_type(out, off); put_int(out, off + 1, 4); }
+                    OpK::MapBegin => { put_type(out, off); put_type(out, off + 1); put_int(out, off + 2, 4); }
+                    OpK::Bytes => put_int(out, off, 4),
+                    _ => {}
+                }
+            } else {
+                match k {
+                    // field header (for a bool field the header is written by the bool call: a Leaf of >= 1 byte following FieldBegin of 0 bytes)
+                    OpK::FieldBegin => { put_type(out, off); if n > 1 { put_var(out, off + 1, n - 1, true); } }
+                    OpK::FieldStop => put_type(out, off),
+                    OpK::CollBegin => { put_type(out, off); if n > 1 { put_var(out, off + 1, n - 1, false); } else { let mut m = e[..off].to_vec(); m.push(0xf0 | (e[off] & 0x0f)); for x in ints(rem_after(off + 1)) { let mut mm = m.clone(); mm.extend(varint(x as u32 as u64)); mm.extend(&e[off + 1..]); out.push(mm); } } }
+                    OpK::MapBegin => { if n > 1 { put_type(out, off + n - 1); put_var(out, off, n - 1, false); } else { put_var(out, off, 1, false); } }
+                    OpK::Bytes => { let mut l = 1; while e[off + l - 1] & 0x80 != 0 { l += 1; } put_var(out, off, l, false); }
+                    OpK::Leaf => { put_type(out, off); }   // bool byte / bool field header / first byte of a varint or fixed leaf
+                    _ => {}
+                }
+            }
+        }
+        off += n;
+    }
+}
+
+fn fixed_values() -> Vec<Val> {
+    let leaf = |t: TT| -> Val { match t {
+        TT::Bool => Val::Bool(true), TT::I8 => Val::I8(-3), TT::I16 => Val::I16(300), TT::I32 => Val::I32(-70000), TT::I64 => Val::I64(1 << 40),
+        TT::Double => Val::Dbl(0x400921fb54442d18), TT::Binary => Val::Bin(b"hello".to_vec()), TT::Uuid => Val::Uuid([0xab; 16]),
+        TT::Struct => Val::Struct(vec![(1, Val::Bool(false)), (2, Val::Bin(vec![1, 2, 3])), (20, Val::I16(-1))]),
+        TT::List => Val::List(TT::I32, vec![Val::I32(1), Val::I32(-1)]), TT::Set => Val::Set(TT::Binary, vec![Val::Bin(vec![]), Val::Bin(vec![9])]),
+        TT::Map => Val::Map(TT::I8, TT::Binary, vec![(Val::I8(1), Val::Bin(vec![7, 7]))]),
+        _ => unreachable!() } };
+    let mut vs = vec![];
+    for t in TT::VALUE { vs.push(leaf(t)); }
+    // every element type x {0, 1, 15, 16} elements, lists and sets
+    for t in TT::VALUE { for n in [0usize, 1, 15, 16] {
+        vs.push(Val::List(t, (0..n).map(|_| leaf(t)).collect()));
+        if n <= 1 { vs.push(Val::Set(t, (0..n).map(|_| leaf(t)).collect())); }
+    } }
+    // maps: fixed/fixed, fixed/variable, variable/fixed, variable/variable, struct keys and values, uuid
+    let pairs = [(TT::I8, TT::I64), (TT::Bool, TT::Bool), (TT::I32, TT::Binary), (TT::Binary, TT::I32), (TT::Binary, TT::List), (TT::Struct, TT::I32), (TT::I8, TT::Struct),
+                 (TT::Struct, TT::Struct), (TT::Uuid, TT::Uuid), (TT::Uuid, TT::Map), (TT::Double, TT::Set), (TT::List, TT::Bool), (TT::I16, TT::Uuid)];
+    for (k, x) in pairs { for n in [0usize, 1, 2, 15, 16] { vs.push(Val::Map(k, x, (0..n).map(|_| (leaf(k), leaf(x))).collect())); } }
+    // structs: every field type, fixed after variable, nested struct ending at a high id then a low sibling id, bool fields
+    vs.push(Val::Struct(vec![]));
+    vs.push(Val::Struct(TT::VALUE.iter().enumerate().map(|(i, t)| (i as i16 * 3 + 1, leaf(*t))).collect()));
+    vs.push(Val::Struct(vec![(1, Val::Struct(vec![(5, Val::I32(1)), (400, Val::Bool(true))])), (2, Val::Bool(true)), (3, Val::List(TT::Bool, vec![Val::Bool(true), Val::Bool(false)])), (4, Val::Uuid([1; 16]))]));
+    vs.push(Val::Struct(vec![(-5, Val::List(TT::Struct, vec![Val::Struct(vec![]), Val::Struct(vec![(1, Val::Bool(false))])])), (32767, Val::Map(TT::Struct, TT::List, vec![(Val::Struct(vec![(1, Val::I8(1))]), Val::List(TT::Uuid, vec![Val::Uuid([2; 16])]))]))]));
+    vs.push(Val::List(TT::List, vec![Val::List(TT::Map, vec![Val::Map(TT::I8, TT::I8, vec![]), Val::Map(TT::I8, TT::I8, vec![(Val::I8(1), Val::I8(2))])]), Val::List(TT::Map, vec![])]));
+    vs.push(Val::Struct(vec![(32760, Val::I8(1)), (32767, Val::Bool(true))]));
+    vs.push(Val::Struct(vec![(-32768, Val::I16(-1)), (-32767, Val::Bool(false)), (0, Val::I32(0)), (32766, Val::Struct(vec![(32767, Val::I8(0))])), (32767, Val::I8(1))]));
+    vs.push(Val::Bin(vec![0x5a; 300]));
+    vs
+}
+
+fn emit_skv(out: &mut dyn Write, p: SP, d: Option<i32>, v: &Val, v2: Option<&Val>, tr: &[u8]) {
+    let d = d.map(|x| x.to_string()).unwrap_or("-".into());
+    let _ = writeln!(out, "skv {} {} {} {} {}", p.name(), d, v.sexp(), v2.map(|w| w.sexp()).unwrap_or("-".into()), hex(tr));
+}
+
+pub fn gen(stream: &str, tier: &str, seed: u64, out: &mut dyn Write) -> bool {
+    let mut r = Rng(seed ^ 0x7412_0007);
+    let thorough = tier == "thorough";
+    let n = |q: usize, t: usize| if thorough { t } else { q };
+    match stream {
+        "C07" => {
+            let follow = [Val::I16(7), Val::Struct(vec![(1, Val::Bool(true)), (2, Val::I32(5)), (17, Val::Bool(false))]), Val::Map(TT::Bool, TT::Bool, vec![(Val::Bool(true), Val::Bool(false))]), Val::Bin(vec![1, 2, 3])];
+            let trails: [&[u8]; 3] = [&[], &[0xaa, 0xbb], &[0x0c, 0x0f, 0xff, 0x00, 0x7f]];
+            // fixed: every shape x every skipper, default budget
+            for (i, v) in fixed_values().iter().enumerate() {
+                for p in SP::ALL { emit_skv(out, p, None, v, Some(&follow[i % follow.len()]), trails[i % 3]); }
+            }
+            // field context: decode a struct skipping one field, read its siblings (reader state after the skip)
+            let mut structs: Vec<Val> = fixed_values().into_iter().filter(|v| matches!(v, Val::Struct(fs) if !fs.is_empty())).collect();
+            structs.push(Val::Struct(vec![(1, Val::Struct(vec![(7, Val::I8(1)), (9, Val::Bool(true))])), (2, Val::Bool(true)), (3, Val::I16(5)), (4, Val::Struct(vec![])), (5, Val::Bool(false)), (30, Val::I64(1)), (31, Val::List(TT::Struct, vec![Val::Struct(vec![(3, Val::I32(1))])]))]));
+            structs.push(Val::Struct(vec![(10, Val::Map(TT::I32, TT::Struct, vec![(Val::I32(1), Val::Struct(vec![(100, Val::Bool(true))]))])), (11, Val::Bool(false)), (12, Val::Bin(vec![1, 2, 3])), (-3, Val::Uuid([9; 16])), (-2, Val::Dbl(7))]));
+            for _ in 0..n(60, 1500) { if let v @ Val::Struct(_) = gen::gen_val(&mut r, TT::Struct, 4) { structs.push(v); } }
+            for v in &structs {
+                let Val::Struct(fs) = v else { continue };
+                for k in 0..fs.len().min(n(8, 64)) { for p in SP::ALL { if p != SP::UBinF { let _ = writeln!(out, "skf {} {} {}", p.name(), v.sexp(), k); } } }
+            }
+            // ladders: nesting 1..80 around the documented limit, all four container kinds
+            let depths: Vec<usize> = if thorough { (1..=80).collect() } else { vec![1, 2, 3, 8, 31, 62, 63, 64, 65, 66, 80] };
+            for d in &depths { for kind in 0..4 {
+                let v = gen::ladder(*d, kind);      // nesting need = d + 1 (the leaf)
+                for p in SP::ALL {
+                    emit_skv(out, p, None, &v, Some(&follow[(d + kind) % follow.len()]), trails[d % 3]);
+                    if p.recursive() && (thorough || matches!(d, 1 | 3 | 63 | 64 | 80)) {
+                        for b in [0i32, 1, *d as i32, *d as i32 + 1, *d as i32 + 2, 127, -1] { if b <= 127 { emit_skv(out, p, Some(b), &v, None, trails[1]); } }
+                    }
+                }
+            } }
+            // leaves with explicit budgets
+            for p in SP::ALL { for b in [0, 1, 2, 127] { emit_skv(out, p, Some(b), &Val::I64(5), Some(&follow[0]), trails[1]); emit_skv(out, p, Some(b), &Val::Struct(vec![]), None, trails[0]); } }
+            // random values
+            for _ in 0..n(500, 12000) {
+                let v = gen::gen_any(&mut r, 6);
+                let v2 = if r.chance(2, 3) { Some(gen::gen_any(&mut r, 2)) } else { None };
+                let tr: Vec<u8> = (0..r.below(6)).map(|_| r.next() as u8).collect();
+                let need = v.depth() as i32;
+                for p in SP::ALL {
+                    if !thorough && !r.chance(3, 4) { continue; }
+                    let d = match r.below(6) { 0 => Some(need), 1 => Some(need - 1), 2 => Some(need + 1), _ => None };
+                    emit_skv(out, p, d, &v, v2.as_ref(), &tr);
+                }
+            }
+        }
+        "C09" => {
+            let mut vals = fixed_values();
+            vals.retain(|v| enc_for(SP::Bin, v).len() <= 120);
+            for _ in 0..n(12, 150) { let v = gen::gen_any(&mut r, 4); if enc_for(SP::Bin, &v).len() <= n(80, 200) { vals.push(v); } }
+            let mut emit = |out: &mut dyn Write, p: SP, bytes: &[u8], tt: TT| {
+                let _ = writeln!(out, "sk {} {} (read {})", p.name(), hex(bytes), tt.name());
+                let _ = writeln!(out, "sk {} {} (skip {})", p.name(), hex(bytes), tt.name());
+            };
+            // every truncation point of valid struct (and other) encodings: all strict prefixes rejected
+            for v in &vals { for p in SP::SAFE { let _ = writeln!(out, "pfx {} {}", p.name(), v.sexp()); } }
+            // bit flips
+            for (i, v) in vals.iter().enumerate() {
+                for p in SP::SAFE {
+                    if !thorough && (i + p as usize) % 3 != 0 { continue; }
+                    let e = enc_for(p, v);
+                    if e.len() > n(48, 200) { continue; }
+                    for pos in 0..e.len() { for bit in 0..8 {
+                        if !thorough && bit != 0 && bit != 7 { continue; }
+                        let mut m = e.clone(); m[pos] ^= 1 << bit; emit(out, p, &m, v.tt());
+                    } }
+                }
+            }
+            // every length / count / type / field-id position overwritten
+            for (i, v) in vals.iter().enumerate() {
+                for p in SP::SAFE {
+                    if !thorough && (i + p as usize) % 2 != 0 { continue; }
+                    if enc_for(p, v).len() > n(64, 200) { continue; }
+                    let mut ms = vec![];
+                    header_mutations(p, v, thorough, &mut ms);
+                    for m in ms { emit(out, p, &m, v.tt()); }
+                }
+            }
+            // unstructured random byte strings, every type
+            for _ in 0..n(150, 4000) {
+                let len = r.below(40) as usize;
+                let small = r.chance(1, 2);
+                let b: Vec<u8> = (0..len).map(|_| if small { *r.pick(&[0u8, 1, 2, 3, 4, 6, 8, 10, 11, 12, 13, 14, 15, 16, 0x19, 0x1c, 0x11, 0x7f, 0x80, 0xff]) } else { r.next() as u8 }).collect();
+                let tt = *r.pick(&TT::ALL);
+                for p in SP::SAFE { emit(out, p, &b, tt); }
+            }
+            // nesting bombs
+            let depths: Vec<usize> = if thorough { (1..=300).collect() } else { vec![1, 2, 10, 63, 64, 65, 66, 100, 200, 300] };
+            for d in depths {
+                for p in SP::SAFE {
+                    let (s, l, m): (Vec<u8>, Vec<u8>, Vec<u8>) = if p.compact() { (vec![0x1c], vec![0x19], vec![0x01, 0x3b]) }
+                        else if p == SP::Le { (vec![0x0c, 0x01, 0x00], vec![0x0f, 1, 0, 0, 0], vec![0x03, 0x0d, 1, 0, 0, 0]) }
+                        else { (vec![0x0c, 0x00, 0x01], vec![0x0f, 0, 0, 0, 1], vec![0x03, 0x0d, 0, 0, 0, 1]) };
+                    emit(out, p, &s.repeat(d), TT::Struct);
+                    emit(out, p, &l.repeat(d), TT::List);
+                    if d <= 100 || thorough { let mut mm = vec![]; for _ in 0..d { mm.extend(&m); mm.push(1); } emit(out, p, &mm, TT::Map); }
+                }
+            }
+        }
+        _ => return false,
+    }
+    true
 }
